@@ -96,6 +96,17 @@ def entry_rules(ctx, f, b, cfg):
     ctx.instance("C13.phases/order", b.path, bad or "prepare* ; check* ; on_entry_*  (no back flow between phases)", "three phases in order", not bad, cfg)
     for m in bad:
         ctx.violation("C13.phases", "C13.phases|order|" + m, "slot phases out of order: " + m, b.loc(), config=cfg)
+    # every entry reaches the statistic phase: no return before the loop that notifies the stat slots (an early return - e.g. a
+    # "no check slots" fast path - leaves the stat slots without their pass-or-blocked notification while exit still completes them);
+    # and the prepare and check phases are passed on the way
+    skipped = []
+    for role, site in (("prepare", pre), ("check", chk), ("stat", ps)):
+        w = must_pass(b, [0], b.return_blocks(), sorted(b.scc_of(site)))
+        if w is not None:
+            skipped.append(role)
+    ctx.instance("C13.phases/all-phases", b.path, {"phases_that_a_return_path_skips": skipped}, "every return path runs through the prepare, check and stat loops", not skipped, cfg)
+    for role in skipped:
+        ctx.violation("C13.phases", "C13.phases|%s|skipped" % role, "SlotChain::entry can return without entering the %s phase" % role, b.loc(), config=cfg)
     # each loop: forward iteration over one SlotChain field, leaves only on exhaustion
     for role, site, allow_after_block in (("prepare", pre, False), ("check", chk, True), ("stat", ps, False)):
         scc = b.scc_of(site)
